@@ -236,7 +236,7 @@ func checkC13(c *core.Check) {
 	c.AddTLC(jr.TLC)
 	c.Add("traces_validated_against_impl", int64(len(events)))
 	c.Add("evaluations", int64(len(events)))
-	c.Cov["distinct_nontrivial"] = jr.Nontriv
+	c.Add("distinct_nontrivial", int64(jr.Nontriv))
 	c.Cov["exhaustive"] = true
 	c.Cov["bounds"] = map[string]any{"model_cfg": cfg, "model_contents": nModel, "random_contents": nRand, "file_cases": nFiles, "served_cases": served}
 	c.Cov["rule"] = "TLC (MC_Embed) enumerates every content up to the cfg's length over the token alphabet and checks the model of the encoder against the model of Go's literal syntax; every enumerated content, seeded random contents and real spec files in several surface forms are embedded by the real generator and the compiled constant is compared with the content by TLC (Trace_Embed); non-trivial = contains a character that is special in Go literals (or, for served cases, the handler answered)"
